@@ -1698,7 +1698,7 @@ class HTMLDependency(MetadataNode):
         return Tag(
             "script",
             # "</script>" in a script tag must be escaped
-            json.dumps(res, indent=indent).replace("</script>", "<\\/script>"),
+            json.dumps(res, indent=indent).replace("</", "<\\/"),
             type="application/json",
             data_html_dependency=True,
         )
